@@ -194,6 +194,9 @@ def call_closure(ex, st, clos, cargs, where):
         mm = re.search(r"\{closure@[^}]*\}", str(clos.what[1]))
         if mm:
             clos = VStruct(mm.group(0), [])     # `const ZeroSized: {closure@..}`: a capture-less closure
+        elif re.fullmatch(r"[\w:<>&\[\], ;']+", str(clos.what[1])) and "::" in str(clos.what[1]):
+            # a function ITEM passed where a closure is expected (`.map_or(0, OsStr::len)`): call it by name
+            return ex.call(st, 0, str(clos.what[1]), list(cargs), None, where)
     if not isinstance(clos, VStruct) or not clos.name.startswith("{closure@"):
         raise Unsupported("not a closure value: %r" % (clos,))
     fn = ex.mir.closures.get(clos.name)
@@ -684,6 +687,36 @@ def _sort_ids(ex, st, args, dest_ty, func, where):
     return UNIT
 
 
+SORTKEY = z3.Function("sort_key_of_path", z3.IntSort(), z3.IntSort())
+
+
+def _sort_by_key_ids(ex, st, args, dest_ty, func, where):
+    """<[T]>::sort_by_key / sort_by_cached_key on a sequence of ids with a key closure that is NOT executed: the key is an
+    UNINTERPRETED function of the element (any key function, in particular one that gives different elements the same key);
+    the result is the STABLE sort by that key: out[i] = in[pos[i]], pos a permutation, (key, pos) lexicographically ascending."""
+    ref = args[0]
+    s = ex.deref(st, ref)
+    if not isinstance(s, VSeq):
+        raise Unsupported("sort_by_key on %r" % (s,))
+    cap = ex.sort_cap
+    ex.oblig("model-bound", where, "sort: sequence longer than the model capacity %d" % cap, z3.And(st.guard, s.len > cap))
+    n = next(ex.fresh)
+    out = z3.Array("sortedk!%d" % n, z3.IntSort(), z3.IntSort())
+    pos = z3.Array("sortpos!%d" % n, z3.IntSort(), z3.IntSort())
+    ax = []
+    for i in range(cap):
+        pi = z3.Select(pos, i)
+        ax.append(z3.Implies(i < s.len, z3.And(pi >= 0, pi < s.len, z3.Select(out, i) == s.at(pi))))
+        for j in range(i + 1, cap):
+            ax.append(z3.Implies(j < s.len, pi != z3.Select(pos, j)))
+        if i + 1 < cap:
+            k0, k1 = SORTKEY(z3.Select(out, i)), SORTKEY(z3.Select(out, i + 1))
+            ax.append(z3.Implies(i + 1 < s.len, z3.Or(k0 < k1, z3.And(k0 == k1, pi < z3.Select(pos, i + 1)))))
+    ex.assumes.append(z3.Implies(st.guard, z3.And(*ax)))
+    ex.store_ref(st, ref, VSeq(out, I(0), s.len, s.elem))
+    return UNIT
+
+
 def _chain(ex, st, args, dest_ty, func, where):
     return VStruct("Chain", [args[0], args[1]])
 
@@ -757,6 +790,7 @@ def install_collections(ex, universe, sort_cap):
     A(r"^<Vec<&PathBuf> as (std::ops::)?DerefMut>::deref_mut$", _deref_mut_same, "<Vec<T> as DerefMut>::deref_mut")
     A(r"^(std|core)::slice::<impl \[&PathBuf\]>::sort(_unstable)?$", _sort_ids, "<[&PathBuf]>::sort_unstable (sorted permutation axioms)")
     A(r"^Vec::<&PathBuf>::dedup$", _dedup, "Vec::dedup (consecutive duplicates removed)")
+    A(r"^(std|core)::slice::<impl \[&PathBuf\]>::sort_by_(cached_)?key::<", _sort_by_key_ids, "<[&PathBuf]>::sort_by_key / sort_by_cached_key (stable sort by an UNINTERPRETED key)")
     A(r"^<std::vec::IntoIter<&PathBuf> as Iterator>::next$", _vec_into_iter_next, "vec::IntoIter::next")
     A(r"^<Vec<PathBuf> as (std::ops::)?DerefMut>::deref_mut$", _deref_mut_same, "<Vec<T> as DerefMut>::deref_mut")
     A(r"^std::slice::<impl \[PathBuf\]>::sort$|^core::slice::<impl \[PathBuf\]>::sort$", _sort_ids, "<[PathBuf]>::sort (sorted permutation axioms)")
